@@ -142,7 +142,57 @@ pub fn unblinded_range_parts(v: &View, lm: u32, le: u32, ln: u32) -> Option<(Str
     None
 }
 
+/// Lengths of the fields that belong to the k-th hidden attribute, collected over the whole run separately for
+/// small attribute values (below 2^64) and full-size ones: (min, max, count) of the bit length per (kind, field).
+/// A blinding value sized from the secret it hides makes the length of the response follow the size of the
+/// attribute - visible to the recipient without any computation.
+type LenStat = std::collections::BTreeMap<(String, String), [(u32, u32, u32); 2]>;
+static FIELD_LENGTHS: std::sync::Mutex<Option<LenStat>> = std::sync::Mutex::new(None);
+
+pub fn record_lengths(v: &View) {
+    let mut g = FIELD_LENGTHS.lock().unwrap();
+    let st = g.get_or_insert_with(LenStat::new);
+    let prefixes: &[&str] = if v.kind.starts_with("issuance") { &["/CL03/proofs_commited_mi/", "/CL03/range_proofs_mi/"] } else { &["/CL03/proofs_commited_mi/", "/CL03/range_proofs_commited_mi/"] };
+    for (path, val) in int_leaves(&v.proof) {
+        for pre in prefixes {
+            let Some(rest) = path.strip_prefix(pre) else { continue };
+            let Some((k, tail)) = rest.split_once('/') else { continue };
+            let Ok(k) = k.parse::<usize>() else { continue };
+            // group elements (commitments) have the length of the modulus whatever they commit to
+            if tail.ends_with("/E") || tail.ends_with("value") && tail.contains("commitment") || tail.starts_with("E") || tail.contains("/E_") || tail.ends_with("/F") {
+                continue;
+            }
+            let Some((_, m)) = v.hidden_vals.get(k) else { continue };
+            let class = if m.significant_bits() <= 64 { 0 } else if m.significant_bits() >= 200 { 1 } else { continue };
+            let e = st.entry((v.kind.to_string(), format!("{}*/{}", pre, tail))).or_insert([(u32::MAX, 0, 0); 2]);
+            let b = val.significant_bits();
+            e[class] = (e[class].0.min(b), e[class].1.max(b), e[class].2 + 1);
+        }
+    }
+}
+
+/// judged once at the end of the run: no field is always at least 24 bits shorter for small attributes
+pub fn judge_lengths() -> Result<u64, (String, String)> {
+    let g = FIELD_LENGTHS.lock().unwrap();
+    let mut judged = 0u64;
+    if let Some(st) = g.as_ref() {
+        for ((kind, field), [small, full]) in st.iter() {
+            if small.2 >= 4 && full.2 >= 4 {
+                judged += 1;
+                if small.1 + 24 < full.0 {
+                    return Err((
+                        format!("field-length-follows-the-attribute-size:{}:{}", kind, field),
+                        format!("{}: over the run, {} has {}..{} bits when the hidden attribute it belongs to is below 2^64 ({} proofs) and {}..{} bits when it is a full-size value ({} proofs): the recipient reads the size of the hidden attribute off the proof", kind, field, small.0, small.1, small.2, full.0, full.1, full.2),
+                    ));
+                }
+            }
+        }
+    }
+    Ok(judged)
+}
+
 pub fn check_view<CS: CLCiphersuite>(rep: &Report, ck: &str, c: &Case, v: &View) -> CheckResult {
+    record_lengths(v);
     let cj = |d: Value| json!({"case": c, "kind": v.kind, "hidden": v.hidden, "detail": d});
     let chals = match public_challenges(v) {
         Ok(c) => c,
@@ -449,6 +499,13 @@ pub fn run(ctx: &Ctx, rep: &Report) -> Meta {
         rep.class_n("proofs-generated-on-long-lived-threads", per_thread as u64);
         Ok(())
     });
+    // run-level statistic: field lengths must not follow the size of the hidden attribute
+    if !rep.aborted() {
+        match judge_lengths() {
+            Ok(n) => rep.note(format!("length statistic: {} (kind, field) pairs compared between small and full-size hidden attributes", n)),
+            Err((site, msg)) => rep.add_violation(Fail { check: "field-lengths".into(), site, msg, case: json!({"statistic": "field lengths over the run"}) }),
+        }
+    }
     // larger suites after the CL1024 proofs of this process (quick: two CL2048 proofs): the order "smaller suite
     // first" is the one in which state sized by the first suite is too small for the next
     if !rep.aborted() {
@@ -476,11 +533,11 @@ pub fn run(ctx: &Ctx, rep: &Report) -> Meta {
         }
     }
     Meta {
-        rule: "honest issuance proofs (with / without trusted commitment) and signature proofs for EVERY non-empty hidden set (n = 1..3 quick / 1..5 thorough) plus generated cases, high-entropy 256-bit attributes, issuers with 0..3 more bases than attributes; \
+        rule: "honest issuance proofs (with / without trusted commitment) and signature proofs for EVERY non-empty hidden set (n = 1..3 quick / 1..5 thorough) plus generated cases, high-entropy 256-bit attributes, issuers with 0..3 more bases than attributes, a third of the generations right after a refused request (hidden position out of range) on the same thread; \
                attacker program: every Fiat-Shamir challenge recomputable from public data (stored ones, C and C mod 2^128 of the interval proofs, and the (t, s1, s2) proofs' challenges recomputed as the verifier does and validated against the verification equation); \
                no response is congruent to 0 or 1 modulo a challenge (unblinded response, no secret needed); for every integer leaf s, every such challenge c and every other leaf s': | floor(s/c) - x | >= 2^64 and | floor(s/s') - x | >= 2^64 for every secret x the prover holds (hidden attributes, e, s, the randomness of C and of the trusted commitment); \
                additionally, with hidden attributes forced to 0 / 1, the response answering for each hidden attribute divided by its own challenge (sound for small values); for every square proof of every embedded range proof the public inverse map floor((floor(d/c)^2 + aa)/2^T), floor((bb - floor(d/c)^2)/2^T) must be >= 2^64 away from the committed value (hidden attribute, e, r); \
-               the commitments E_a_2 / E_b_2 of every embedded range proof are not the bare powers g^x of the recomputed second parts; long-lived prover threads generate 36 (quick) / 200 (thorough) proofs each in sequence, every one judged, after the thread has drawn a number of words just below 2^14 ... 2^20 (a different power of two per thread); positive control: an under-blinded response is flagged, a properly blinded one is not; non-trivial = proof with >= 1 hidden attribute; evaluations = quotients judged"
+               the commitments E_a_2 / E_b_2 of every embedded range proof are not the bare powers g^x of the recomputed second parts; over the whole run, no field that belongs to a hidden attribute is always at least 24 bits shorter when that attribute is below 2^64 than when it is a full-size value; long-lived prover threads generate 36 (quick) / 200 (thorough) proofs each in sequence, every one judged, after the thread has drawn a number of words just below 2^14 ... 2^20 (a different power of two per thread); positive control: an under-blinded response is flagged, a properly blinded one is not; non-trivial = proof with >= 1 hidden attribute; evaluations = quotients judged"
             .into(),
         assumptions: vec![
             "randomness of the commitments made inside proof generation (rx, rw, re, w, r_i) is not known to the harness and is judged only where the division yields a known secret".into(),
@@ -490,6 +547,20 @@ pub fn run(ctx: &Ctx, rep: &Report) -> Meta {
 }
 
 pub fn replay(ctx: &Ctx, rep: &Report, ck: &str, case: &Value) -> CheckResult {
+    if ck == "field-lengths" {
+        // the statistic is over a run: generate small-attribute and full-size cases again and judge
+        let sh = c17::shared(ctx, false);
+        for k in 0..24u32 {
+            let c = Case { key: k as u16, n: 2, hidden_mask: 0b11, kind: if k % 2 == 0 { 2 } else { 0 }, seed: 900 + k, small_mask: if k % 4 < 2 { 0b11 } else { 0 }, hidden_list: vec![], spare: 0, eq_hidden: false };
+            if let Ok(v) = build_view::<CL1024Sha256>(&c, &sh) {
+                record_lengths(&v);
+            }
+        }
+        return match judge_lengths() {
+            Ok(_) => Ok(()),
+            Err((site, msg)) => Err(Fail { check: ck.into(), site, msg, case: case.clone() }),
+        };
+    }
     let c: Case = serde_json::from_value(case["case"].clone()).map_err(|e| Fail { check: ck.into(), site: "replay-parse".into(), msg: e.to_string(), case: case.clone() })?;
     let sh = c17::shared(ctx, c.kind % 3 == 1);
     match build_view::<CL1024Sha256>(&c, &sh) {
